@@ -30,6 +30,7 @@ def obligations(tier):
         for oi, od in enumerate(dict.fromkeys(orders)):
             obs.append(Ob(id=f'spline_predict_order/k{k}/order{"".join(map(str, od))}', harness='C19/spline.c', tus=T, defs={'HP_K': k, 'HP_WHICH': 2, 'HP_LINE': 0, 'HP_QORDER': ','.join(map(str, od))}, engine='real', unwind=2 * k + 4, timeout=to,
                           clause='evaluation is a pure function of x (any query order in one call)', stubs=R, real={'nomissing': False}))
+    obs.append(Ob(id='spline_coefficients_reused_output/k4', harness='C19/spline.c', tus=T, defs={'HP_K': 4, 'HP_WHICH': 0, 'HP_LINE': 0, 'HP_PREFILL': 1}, engine='real', unwind=8, timeout=to, clause='natural cubic spline contracts', stubs=R, real={'nomissing': False}))
     for n in (2, 3, 4, 5):
         obs.append(Ob(id=f'area/n{n}', harness='C15/area.c', tus=T, defs={'HP_N': n}, engine='real', unwind=8, timeout=to, clause='trapezoid area exact and additive', stubs=R, real={'nomissing': True}))
     for (d, it) in ([(1, 1), (1, 2), (2, 1)] if not th else [(1, 1), (1, 2), (1, 3), (2, 1), (2, 2)]):
